@@ -222,3 +222,84 @@ func createShellFunctions() {''')
 elif which=='resume-localterm':
     sub('extensions/io.go','''				defer func() { s.Context, s.Cancel = s.Term.Resume(context.Background()) }()''','''				term := s.Term
 				defer func() { s.Context, s.Cancel = term.Resume(context.Background()) }()''')
+elif which=='readhex-inline':
+    sub('lexer/lexer.go','''		if !isHexChar(l.peekChar()) {
+			break
+		}
+		v = v<<4 | hexCharToHex(l.readChar())''','''		c := l.peekChar()
+		if !(('0' <= c && c <= '9') || ('a' <= c && c <= 'f') || ('A' <= c && c <= 'F')) {
+			break
+		}
+		v = v<<4 | hexCharToHex(l.readChar())''')
+elif which=='deref-helper':
+    sub('eval/eval.go','''	condition := object.Value(s.evalInternal(ie.Condition)) // deref a variable of an outer scope.''','''	condition := s.evalValue(ie.Condition)''')
+    sub('eval/eval.go','''func (s *State) evalIfExpression(ie *ast.IfExpression) object.Object {''','''func (s *State) evalValue(n ast.Node) object.Object {
+	return object.Value(s.evalInternal(n))
+}
+
+func (s *State) evalIfExpression(ie *ast.IfExpression) object.Object {''')
+elif which=='deref-assert':
+    sub('eval/eval.go','''	obj = object.Value(obj) // deref.
+	// TODO: handle arrays too?''','''	if r, isRef := obj.(object.Reference); isRef {
+		obj = r.ObjValue()
+	}
+	// TODO: handle arrays too?''')
+elif which=='loopctl-ifchain':
+    sub('eval/eval.go','''				r := nextEval.(object.ReturnValue)
+				switch r.ControlType {
+				case token.BREAK:
+					return lastEval
+				case token.CONTINUE:
+					continue
+				default: // return: up to the function.
+					return r
+				}''','''				r := nextEval.(object.ReturnValue)
+				if r.ControlType == token.CONTINUE {
+					continue
+				}
+				if r.ControlType == token.BREAK {
+					return lastEval
+				}
+				return r // return: up to the function.''')
+elif which=='numset-helper':
+    sub('object/state.go','''		if ref.RefEnv.depth == 0 {
+			ref.RefEnv.numSet++ // a global changed, like in update().
+		}''','''		ref.RefEnv.changed()''')
+    sub('object/state.go','''func (e *Environment) create(name string, val Object) Object {''','''func (e *Environment) changed() {
+	if e.depth == 0 {
+		e.numSet++
+	}
+}
+
+func (e *Environment) create(name string, val Object) Object {''')
+elif which=='getmiss-pluseq':
+    sub('object/state.go','''		e.getMiss++ // a write outside of this frame is a side effect, whatever the variable held: not cacheable.''','''		e.getMiss += 1''')
+elif which=='verdicts-combined':
+    sub('eval/eval_api.go','''	if len(p.Errors()) != 0 {
+		return object.NULL, fmt.Errorf("parsing error: %v", p.Errors())
+	}
+	if p.ContinuationNeeded() { // e.g. unterminated block comment: the tree has missing nodes.
+		return object.NULL, errors.New("parsing error: incomplete input")
+	}''','''	if errs := p.Errors(); len(errs) > 0 || p.ContinuationNeeded() {
+		if len(errs) == 0 {
+			return object.NULL, errors.New("parsing error: incomplete input")
+		}
+		return object.NULL, fmt.Errorf("parsing error: %v", errs)
+	}''')
+elif which=='rightprec-assign':
+    sub('ast/ast.go','''		if rightOperandBindsTighter(i.Type(), i.Right) {
+			out.ExpressionPrecedence++
+		}''','''		if rightOperandBindsTighter(i.Type(), i.Right) {
+			out.ExpressionPrecedence += 1
+		}''')
+elif which=='catch-order':
+    sub('eval/eval.go','''			s.env.TriggerNoCache()
+			val = object.String{Value: val.(object.Error).Value}''','''			msg := val.(object.Error).Value
+			s.env.TriggerNoCache()
+			val = object.String{Value: msg}''')
+elif which=='openstring-helper':
+    sub('parser/parser.go','''	if p.l.OpenString() { // also at the start of a statement, where the end of line is not a surprise.
+		p.continuationNeeded = true
+	}''','''	if open := p.l.OpenString(); open {
+		p.continuationNeeded = open
+	}''')
